@@ -47,7 +47,8 @@ MANIFEST_ENTRY = {
         "(vod_periods_whole_ms, live_periods_whole_ms); every number the Period duration admits is served iff "
         "duration*ts <= (n-i0)*sd*10^6 (mps_admitted_partial / mps_admitted_tight / mps_admitted_of_fits). The "
         "hand-written model is tied to the code on every run by differential correspondence against the booted "
-        "Flask app (captured template context of real manifests, served bytes of real /mps/ media requests)."),
+        "Flask app (captured template context of real manifests, served bytes of real /mps/ media requests)."
+        " generate_period_timeline is in addition translated from the source text into Lean on every run and proved equal to Periods.periodTimeline (tie_periodTimeline)."),
     "level_note": (
         "Hypotheses kept explicit: total duration > 0 (excluded point: ZeroDivisionError of the builder, "
         "decide-d; the manifest handler now answers 404 first, fix a1efbe1), loop count nl*D <= F (the float "
